@@ -578,6 +578,19 @@ func (s *syncer) resolveBisyncCheckpointNameWithClient(cli client.Redis, ids []s
 		return "", err
 	}
 	if seed != nil {
+		// StartPoint resumes from the root checkpoint when it is ahead of the mode state (a completed
+		// full sync only writes the root checkpoint) : the seed must not fall behind that position.
+		root, _, err := checkpoint.GetCheckpoint(cli, cpName, ids)
+		if err != nil {
+			return "", err
+		}
+		// GetCheckpoint walks every database of a standalone target, the namespace is seeded in database 0
+		if err := redis.SelectDB(cli, 0); err != nil {
+			return "", err
+		}
+		if root != nil && root.Offset > seed.Offset && checkpoint.MatchBisyncRunID(root.RunId, ids) {
+			seed.RunID, seed.Offset = root.RunId, root.Offset
+		}
 		// Once the checkpoint hash is repointed, the new namespace must be readable
 		// through the current source run IDs instead of the historical one that
 		// produced the old authoritative state.
